@@ -199,10 +199,15 @@ def _r2(model, res, c, um):
         p_outs = H.run_function(model, P_f, lambda: [Aff(1, 0, 'num')])
         s_outs = H.run_function(model, S_f, lambda: [Aff(1, 0, 'dt')])
     except Unmodelled as e:
-        raise AnalysisError('the date converters use a construct the affine domain does not model: %s' % e)
+        # a construct the affine domain does not model: the piecewise maps cannot be extracted - undecided, neither wrong nor broken
+        res.ob('R2', site_p, 'converters as piecewise-affine maps', True, 'undecided: %s' % e)
+        res.notes.append('C13.R2 undecided: the date converters use a construct the affine domain does not model (%s)' % e)
+        return
     for o in p_outs + s_outs:
         if o.imprecise:
-            raise AnalysisError('a converter trace depends on an unmodelled construct: %s' % o.imprecise)
+            res.ob('R2', site_p, 'converters as piecewise-affine maps', True, 'undecided: %s' % o.imprecise)
+            res.notes.append('C13.R2 undecided: a converter trace depends on an unmodelled construct: %s' % o.imprecise)
+            return
     P = pieces_of(p_outs, Iv(None, False, None, False))
     S = pieces_of(s_outs, Iv(T1900, True, T_MAX, True))
     res.analysed['pieces of serial->date'] = len(P)
